@@ -103,10 +103,12 @@ class DataCollection(HubListener):
             The datasets to add.
         """
         # Wait until all datasets are added to sync the link manager
-        with self._ignore_link_manager_update():
-            for d in data:
-                self.append(d)
-        self._sync_link_manager()
+        try:
+            with self._ignore_link_manager_update():
+                for d in data:
+                    self.append(d)
+        finally:
+            self._sync_link_manager()
 
     def remove(self, data):
         """
@@ -146,8 +148,10 @@ class DataCollection(HubListener):
     @contextmanager
     def _ignore_link_manager_update(self):
         self._disable_sync_link_manager += 1
-        yield
-        self._disable_sync_link_manager -= 1
+        try:
+            yield
+        finally:
+            self._disable_sync_link_manager -= 1
 
     @contextmanager
     def delay_link_manager_update(self):
@@ -161,9 +165,11 @@ class DataCollection(HubListener):
         after each operation.
         """
         self._disable_sync_link_manager += 1
-        yield
-        self._disable_sync_link_manager -= 1
-        self._sync_link_manager()
+        try:
+            yield
+        finally:
+            self._disable_sync_link_manager -= 1
+            self._sync_link_manager()
 
     @property
     def links(self):
